@@ -395,7 +395,7 @@ func noise4tail(rng *rand.Rand, with82, with61 bool) []pkt.Opt4 {
 		o = append(o, pkt.O4(97, append([]byte{0}, make([]byte, 16)...)...))
 	}
 	if rng.Intn(5) == 0 {
-		o = append(o, pkt.O4(81, 0, 0, 0, 'h', '.', 'e', 'x'))
+		o = append(o, fqdn81(rng))
 	}
 	if rng.Intn(5) == 0 {
 		o = append(o, pkt.O4(77, 4, 'i', 'P', 'X', 'E'))
@@ -435,7 +435,56 @@ func noise4tail(rng *rand.Rand, with82, with61 bool) []pkt.Opt4 {
 		l := []int{2, 7, 19, 120, 255}[rng.Intn(5)]
 		v := make([]byte, l)
 		rng.Read(v)
+		if rng.Intn(2) == 0 {
+			v = clientID61(rng, nil)
+		}
 		o = append(o, pkt.O4(61, v...))
 	}
 	return o
+}
+
+// fqdn81: a Client FQDN option (RFC 4702) in every form the RFC allows: flags S/O/E/N, the name in the
+// deprecated ASCII form or in DNS wire form, fully qualified, partial (no terminating root label) or empty.
+func fqdn81(rng *rand.Rand) pkt.Opt4 {
+	flags := []byte{0, 1, 4, 5, 8, 0x0c, 2}[rng.Intn(7)]
+	v := []byte{flags, 0, 0}
+	if flags&4 != 0 {
+		v = append(v, [][]byte{{}, {0}, {1, 'h', 2, 'e', 'x', 0}, {4, 'h', 'o', 's', 't'}, {0xc0, 0x10}, {1, 'h', 0xc0, 0x00}, {63}, {5, 'a', 'b'}}[rng.Intn(8)]...)
+	} else {
+		v = append(v, []string{"", "h.ex", "host", "host.example.org.", "."}[rng.Intn(5)]...)
+	}
+	return pkt.O4(81, v...)
+}
+
+// clientID61: a client identifier in one of the forms clients really send: hardware type + address (RFC 2132),
+// 0xff + IAID + DUID (RFC 4361; DUID-LL, DUID-LLT, DUID-EN, DUID-UUID), type 0 + text, or opaque bytes.
+func clientID61(rng *rand.Rand, mac []byte) []byte {
+	if len(mac) == 0 {
+		mac = []byte{2, 0x11, 0x22, 0x33, 0x44, byte(rng.Intn(256))}
+	}
+	iaid := []byte{0xde, 0xad, 0xbe, byte(rng.Intn(256))}
+	switch rng.Intn(8) {
+	case 0:
+		return append([]byte{1}, mac...)
+	case 1:
+		return append(append([]byte{0xff}, iaid...), pkt.DUIDLL(mac)...)
+	case 2:
+		return append(append([]byte{0xff}, iaid...), pkt.DUIDLLT(rng.Uint32(), mac)...)
+	case 3:
+		return append(append([]byte{0xff}, iaid...), pkt.DUIDEN(rng.Uint32(), mac[:rng.Intn(len(mac))])...)
+	case 4:
+		var u [16]byte
+		rng.Read(u[:])
+		return append(append([]byte{0xff}, iaid...), pkt.DUIDUUID(u)...)
+	case 5:
+		return append([]byte{0}, []byte("client-"+fmt.Sprint(rng.Intn(1000)))...)
+	case 6:
+		// DUID-LL of another hardware type (InfiniBand, 20-byte address)
+		ib := make([]byte, 20)
+		rng.Read(ib)
+		return append(append(append([]byte{0xff}, iaid...), 0, 3, 0, 32), ib...)
+	}
+	v := make([]byte, 1+rng.Intn(19))
+	rng.Read(v)
+	return v
 }
